@@ -95,6 +95,25 @@ func c20BuildPool(r *rand.Rand) (*c20pool, error) {
 		v := p.vals[i].Map(math.Sin)
 		add(v, p.ts[i].Sin(), "result-of-"+p.kinds[i])
 	}
+	// comparison masks that no operation has touched yet (their first use happens inside the goroutines)
+	for i := 0; i+1 < n; i += 2 {
+		if ref.SameShape(p.vals[i].Shape, p.vals[i+1].Shape) {
+			m, err := p.ts[i].Gt(p.ts[i+1])
+			if err != nil {
+				return nil, err
+			}
+			mv, _ := ref.SameOp("gt", p.vals[i], p.vals[i+1])
+			add(mv, m, "untracked-leaf") // a fresh, never-used comparison result; usable like any untracked tensor
+		}
+	}
+	// values at the edges of the floating-point range: Exp overflows / underflows, Log of 0, products that overflow
+	for _, s := range [][]int{{3}, {2, 3}} {
+		ev := ref.Zeros(s)
+		for i := range ev.Data {
+			ev.Data[i] = []float64{750, -750, 710, 0, -0.0, 1e308, -1e308, 5e-324, 36}[(i+len(s))%9]
+		}
+		add(ev, rt.MustLeaf(ev, false), "extreme-values-leaf")
+	}
 	// spent tensors and gradient tensors: a graph back-propagated before the goroutines start
 	sv := Shuffled(r, Unique(r, []int{2, 3}, 0.2, 1.5))
 	s := rt.MustLeaf(sv, true)
@@ -180,7 +199,7 @@ func c20GenJobs(r *rand.Rand, p *c20pool, n int) []c20job {
 			}
 			allowed := make([]int, 0, np)
 			for j := 0; j < np; j++ {
-				if len(p.vals[j].Data) <= 27 {
+				if len(p.vals[j].Data) <= 27 && p.kinds[j] != "extreme-values-leaf" {
 					allowed = append(allowed, j)
 				}
 			}
@@ -209,6 +228,12 @@ func c20GenJobs(r *rand.Rand, p *c20pool, n int) []c20job {
 			jobs = append(jobs, c20job{kind: "layer", seed: r.Int63()})
 		case q == 7 || q == 8:
 			jobs = append(jobs, c20job{kind: "private-backprop", seed: r.Int63(), a: r.Intn(np)})
+		case q == 9 && r.Intn(2) == 0:
+			a := r.Intn(np)
+			for p.kinds[a] != "extreme-values-leaf" {
+				a = (a + 1) % np
+			}
+			jobs = append(jobs, c20job{kind: "extreme-elementwise", a: a})
 		case q == 9 && r.Intn(3) == 0:
 			a := r.Intn(np)
 			for p.kinds[a] != "huge-untracked-leaf" {
@@ -248,6 +273,35 @@ func c20Run(p *c20pool, jobs []c20job, inject *rand.Rand, start time.Time, rec *
 	}
 	for _, j := range jobs {
 		switch j.kind {
+		case "extreme-elementwise": // value-dependent paths: overflow, underflow, division by zero, Log(0)
+			t := p.ts[j.a]
+			sm, _ := activations.NewSoftmax(nil)
+			var rs []tensor.Tensor
+			if e := span("elementwise-on-extreme-values", []int{j.a}, func() (err error) {
+				rs = append(rs, t.Exp(), t.Log(), t.Pow(2), t.Sinh(), t.Scale(10))
+				for _, a := range []interface {
+					Forward(...tensor.Tensor) (tensor.Tensor, error)
+				}{activations.NewSigmoid(), activations.NewTanh(), sm, activations.NewRelu()} {
+					y, err := a.Forward(t)
+					if err != nil {
+						return err
+					}
+					rs = append(rs, y)
+				}
+				d, err := t.Div(t)
+				if err != nil {
+					return err
+				}
+				rs = append(rs, d)
+				return nil
+			}); e != nil {
+				return out, e
+			}
+			for _, r := range rs {
+				if e := hashBits(&out, r); e != nil {
+					return out, e
+				}
+			}
 		case "huge-elementwise":
 			t := p.ts[j.a]
 			var res tensor.Tensor
